@@ -27,18 +27,18 @@ Proof. exact run_call_order. Qed.
 Theorem C11_ref_and_then : forall a b req,
   denote (AndThen a b) req = match denote a req with Ok v => denote b v | Err x => Err x end
   /\ sem (AndThen a b) req = sem a req ++ match denote a req with Ok v => sem b v | Err _ => [] end.
-Proof. split; reflexivity. Qed.
+Proof. exact spec_ref_and_then. Qed.
 
 (* ... map / map_err apply their closure exactly once, after the inner future completed, to the
    matching variant only ... *)
 Theorem C11_ref_map : forall m a req,
   denote (Map m a) req = match denote a req with Ok v => Ok (app_m m v) | Err x => Err x end
   /\ sem (Map m a) req = sem a req ++ match denote a req with Ok v => [SMap KOk m v] | Err _ => [] end.
-Proof. split; reflexivity. Qed.
+Proof. exact spec_ref_map. Qed.
 Theorem C11_ref_map_err : forall m a req,
   denote (MapErr m a) req = match denote a req with Ok v => Ok v | Err x => Err (app_m m x) end
   /\ sem (MapErr m a) req = sem a req ++ match denote a req with Ok _ => [] | Err x => [SMap KErr m x] end.
-Proof. split; reflexivity. Qed.
+Proof. exact spec_ref_map_err. Qed.
 
 (* ... apply_fn hands the request and the inner service to the closure; for the harness closure
    "pre-map the request, call the service once, post-map an Ok response" ... *)
@@ -48,10 +48,10 @@ Theorem C11_ref_apply_fn : forall pre post a req,
   /\ sem (ApplyFn (WPrePost pre post) a) req
      = SMap KPre pre req :: sem a (app_m pre req)
        ++ match denote a (app_m pre req) with Ok v => [SMap KPost post v] | Err _ => [] end.
-Proof. split; reflexivity. Qed.
+Proof. exact spec_ref_apply_fn. Qed.
 Theorem C11_ref_apply_fn_skip : forall r a req,
   denote (ApplyFn (WSkip r) a) req = r /\ sem (ApplyFn (WSkip r) a) req = [].
-Proof. split; reflexivity. Qed.
+Proof. exact spec_ref_apply_fn_skip. Qed.
 
 (* ... and Box<dyn>, Rc<dyn>, Rc, Box, &, &mut, RefCell are transparent: same value, same log,
    same readiness. *)
@@ -59,7 +59,7 @@ Theorem C11_wrappers_transparent : forall k a,
   (forall n w req, run_call n w (Wrap k a) req = run_call n w a req)
   /\ (forall req, denote (Wrap k a) req = denote a req)
   /\ (forall w, poll_ready (Wrap k a) w = let '(a', r, l) := poll_ready a w in (Wrap k a', r, l)).
-Proof. split; [|split]; reflexivity. Qed.
+Proof. exact spec_wrappers_transparent. Qed.
 
 (* non-vacuity: a depth-3 tree with delayed leaves, an erroring second stage and all closure kinds *)
 Definition ex_leaf0 := Leaf 0 [RPending; ROk] (fun r => (2%nat, Ok (r + 5))).
@@ -82,6 +82,102 @@ Example C11_example_err :
   /\ sem ex_tree 0 = [SCall 0 0; SDone 0 (Ok 5); SMap KPre (MAdd 1) 5; SCall 1 6; SDone 1 (Err 7); SMap KErr (MTag 1) 7].
 Proof. vm_compute. repeat split. Qed.
 
+(* ------------------------------- factory forms ------------------------------------------- *)
+(* [run_new n w f c]: `f.new_service(c)` driven by the executor; [fsem f c] = (number of Pending
+   rounds, what comes out: the composed service expression or the first init error);
+   [fleaves f c]: every leaf factory of f with the config it must be built with;
+   [new_events l]: the (leaf factory, config) pairs of the `new_service` calls logged in l. *)
+
+(* Value: the factory future resolves, after exactly fst(fsem)+1 polls, to the reference result:
+   the composed SERVICE EXPRESSION (to which C11_value / C12_* apply again) or the init error. *)
+Theorem C11_factory_value : forall f c w n, (fst (fsem f c) < n)%nat ->
+  fst (run_new n w f c) = (IReady (snd (fsem f c)), S (fst (fsem f c))).
+Proof. exact run_new_value. Qed.
+
+(* Each inner leaf factory is invoked exactly once, with the supplied (mapped / unit) config,
+   in creation order — for any fuel, whether or not the construction succeeds. *)
+Theorem C11_factory_once : forall f c w n, new_events (snd (run_new n w f c)) = fleaves f c.
+Proof. exact run_new_once. Qed.
+
+(* The reference, spelled out (all by definition).  and_then joins both inner futures: the
+   result is ready when both are, and the first init error in (poll round, position) order wins. *)
+Theorem C11_ref_factory_and_then : forall a b c ka kb sa sb ea eb,
+  fsem (FAndThen a b) c = fjoin (fsem a c) (fsem b c)
+  /\ fjoin (ka, IOk sa) (kb, IOk sb) = (Nat.max ka kb, IOk (AndThen sa sb))
+  /\ fjoin (ka, IErr ea) (kb, IOk sb) = (ka, IErr ea)
+  /\ fjoin (ka, IOk sa) (kb, IErr eb) = (kb, IErr eb)
+  /\ fjoin (ka, IErr ea) (kb, IErr eb) = (if (ka <=? kb)%nat then (ka, IErr ea) else (kb, IErr eb)).
+Proof. exact spec_ref_factory_and_then. Qed.
+
+(* map / map_err / apply_fn_factory wrap the built service; map_init_err maps only the init error;
+   boxed::factory boxes the service; Rc / Arc factories are transparent. *)
+Theorem C11_ref_factory_wrappers : forall sw m k a c,
+  fsem (FMapSvc sw a) c = (let '(n, r) := fsem a c in (n, imap (sw_app sw) r))
+  /\ fsem (FMapInitErr m a) c = (let '(n, r) := fsem a c in (n, imap_err m r))
+  /\ fsem (FWrap FWBoxed a) c = (let '(n, r) := fsem a c in (n, imap (Wrap WBoxed) r))
+  /\ (k <> FWBoxed -> fsem (FWrap k a) c = fsem a c).
+Proof. exact spec_ref_factory_wrappers. Qed.
+
+(* config routing: map_config maps it (once, see C11_factory_once), unit_config and
+   apply_cfg_factory build the inner factory with (), and_then gives the same config to both *)
+Theorem C11_ref_factory_config : forall m a b cs c,
+  fleaves (FMapConfig m a) c = fleaves a (map_cfg m c)
+  /\ fleaves (FUnitConfig a) c = fleaves a None
+  /\ fleaves (FApplyCfgFactory a cs) c = fleaves a None
+  /\ fleaves (FAndThen a b) c = fleaves a c ++ fleaves b c
+  /\ fsem (FMapConfig m a) c = fsem a (map_cfg m c)
+  /\ fsem (FUnitConfig a) c = fsem a None.
+Proof. exact spec_ref_factory_config. Qed.
+
+(* apply_cfg_factory = create, wait ready, configure (State A -> B -> C): the rounds add up, a
+   creation error or a readiness error ends it, and the closure gets the config and the service
+   in the state the readiness wait left it in. *)
+Theorem C11_ref_apply_cfg_factory : forall a cs c,
+  fsem (FApplyCfgFactory a cs) c =
+  (let '(ka, ra) := fsem a None in
+   match ra with
+   | IErr e => (ka, IErr e)
+   | IOk s =>
+       let '(kr, rr, s') := wait_ready (S (script_len s)) s in
+       match rr with
+       | RErr e => ((ka + kr)%nat, IErr e)
+       | _ => ((ka + kr + c_k cs)%nat, cfg_out cs c s')
+       end
+   end).
+Proof. reflexivity. Qed.
+(* the readiness wait always ends (its fuel is never exhausted) *)
+Theorem C11_wait_ready_ends : forall n e, (script_len e < n)%nat -> snd (fst (wait_ready n e)) <> RPending.
+Proof. exact wait_ready_enough. Qed.
+
+(* Transform application = build the inner service, then new_transform on it (A -> B); the
+   factory's init error is passed through untouched, the transform's own init error goes through
+   TransformExt::map_init_err when present. *)
+Theorem C11_ref_apply_transform : forall t a c,
+  fsem (FApplyTransform t a) c =
+  (let '(ka, ra) := fsem a c in
+   match ra with
+   | IErr e => (ka, IErr e)
+   | IOk s => ((ka + t_k t)%nat, match t_mie t with Some m => imap_err m (tr_out t s) | None => tr_out t s end)
+   end).
+Proof. reflexivity. Qed.
+
+(* non-vacuity: concurrent init with a later error on the left, and create/wait/configure *)
+Definition ex_lf (id : nat) (k : nat) (r : ires) : fexpr := FLeafF id LDirect (fun _ => (k, r)).
+Example C11_example_factory_err :
+  run_new 10 0 (FAndThen (ex_lf 0 2 (IErr 5)) (FMapInitErr (MTag 1) (ex_lf 1 1 (IErr 6)))) (Some 3)
+  = (IReady (IErr 61), 2%nat,
+     [EvNew 0 (Some 3); EvNew 1 (Some 3); EvInit 0 0 true; EvInit 1 0 true; EvInit 0 1 true; EvInit 1 1 false;
+      EvMap KInit (MTag 1) 6]).
+Proof. vm_compute. reflexivity. Qed.
+Example C11_example_cfg_factory :
+  let f := FApplyCfgFactory (FUnitConfig (ex_lf 0 1 (IOk ex_leaf0))) {| c_id := 9; c_k := 1; c_fail := None |} in
+  run_new 10 0 f (Some 4)
+  = (IReady (IOk (Map (MAdd 4) (Wrap WRc (Leaf 0 [] (fun r => (2%nat, Ok (r + 5))))))), 4%nat,
+     [EvNew 0 None; EvInit 0 0 true; EvInit 0 1 false; EvReady 0 1 RPending; EvReady 0 2 ROk;
+      EvCfgFn 9 (Some 4); EvInit 9 2 true; EvInit 9 3 false])
+  /\ fsem f (Some 4) = (3%nat, IOk (Map (MAdd 4) (Wrap WRc (Leaf 0 [] (fun r => (2%nat, Ok (r + 5))))))).
+Proof. vm_compute. split; reflexivity. Qed.
+
 Print Assumptions C11_value.
 Print Assumptions C11_order.
 Print Assumptions C11_ref_and_then.
@@ -90,3 +186,11 @@ Print Assumptions C11_ref_map_err.
 Print Assumptions C11_ref_apply_fn.
 Print Assumptions C11_ref_apply_fn_skip.
 Print Assumptions C11_wrappers_transparent.
+Print Assumptions C11_factory_value.
+Print Assumptions C11_factory_once.
+Print Assumptions C11_ref_factory_and_then.
+Print Assumptions C11_ref_factory_wrappers.
+Print Assumptions C11_ref_factory_config.
+Print Assumptions C11_ref_apply_cfg_factory.
+Print Assumptions C11_wait_ready_ends.
+Print Assumptions C11_ref_apply_transform.
